@@ -1,2 +1,63 @@
-(* Props/C13.v *)
-From BC Require Import Store.Engine.
+(* Props/C13.v — C13: compaction actually reclaims space and never grows the store. *)
+From BC Require Import Store.Engine Store.Log Store.Inv Store.Refine Store.Merge Store.MergeLemmas Store.Sizes Store.Theorems Store.SizeThms.
+Open Scope N_scope.
+
+(* [dir_size d] is the sum of the sizes of the data files of [d] ([dir_size_files]); [live_bytes L i]
+   is the total size of the records of the log that the index still denotes — each live key's
+   latest value record, 25 + |key| + |value| bytes, once. *)
+Theorem C13_dir_size_is_file_sizes : forall d, dir_size d = files_size d.
+Proof. exact dir_size_files. Qed.
+Print Assumptions C13_dir_size_is_file_sizes.
+
+(* 1. A merge pass never increases the total size of the data files, whatever the thresholds select. *)
+Theorem C13_no_growth : forall c s ord, Inv s -> merge_ready c s ord ->
+  exists s' t, merge c s ord = ROk (s', tt, t) /\ dir_size (s_dir s') <= dir_size (s_dir s).
+Proof. exact merge_no_growth. Qed.
+Print Assumptions C13_no_growth.
+
+(* 2. The exact size after any merge: what the unselected files hold, plus one copy of every record
+      that was live in a selected file. *)
+Theorem C13_size_after_merge : forall c s ord, Inv s -> merge_ready c s ord ->
+  exists s' t sel0, merge c s ord = ROk (s', tt, t) /\ select c s = ROk sel0 /\
+    dir_size (s_dir s') = lsize (filter (keep (fun g => mem g sel0)) (slog s)) + bliveS (fun g => mem g sel0) (slog s) (s_idx s).
+Proof.
+  intros c s ord HI Hr. destruct (merge_full c s ord HI Hr) as (s' & t & sel0 & Hm & Hsel & _ & _ & _ & Hsz & _).
+  exists s', t, sel0. auto.
+Qed.
+Print Assumptions C13_size_after_merge.
+
+(* 3. When every file that holds a record is selected, the store afterwards is exactly as large as the
+      live records (each live key once, no deleted or overwritten data kept: no file has a dead
+      record or a dead byte) ... *)
+Theorem C13_full_merge_exact : forall c s ord, Inv s -> merge_ready c s ord ->
+  (forall sel0, select c s = ROk sel0 -> all_selected sel0 (slog s)) ->
+  exists s' t, merge c s ord = ROk (s', tt, t) /\ Inv s' /\
+    dir_size (s_dir s') = live_bytes (slog s) (s_idx s) /\
+    (forall g, ndead (slog s') (s_idx s') g = 0 /\ bdead (slog s') (s_idx s') g = 0) /\
+    live_bytes (slog s') (s_idx s') = dir_size (s_dir s').
+Proof. exact merge_all_exact. Qed.
+Print Assumptions C13_full_merge_exact.
+
+(* 4. ... and repeating such a merge changes nothing further. *)
+Theorem C13_idempotent : forall c s ord ord', Inv s -> merge_ready c s ord ->
+  (forall sel0, select c s = ROk sel0 -> all_selected sel0 (slog s)) ->
+  exists s' t, merge c s ord = ROk (s', tt, t) /\
+    (merge_ready c s' ord' -> (forall sel0, select c s' = ROk sel0 -> all_selected sel0 (slog s')) ->
+     exists s'' t', merge c s' ord' = ROk (s'', tt, t') /\ dir_size (s_dir s'') = dir_size (s_dir s')).
+Proof.
+  intros c s ord ord' HI Hr Hall. destruct (merge_all_exact c s ord HI Hr Hall) as (s' & t & Hm & HI' & _ & _ & Hlb).
+  exists s', t. split; [exact Hm|]. intros Hr' Hall'.
+  destruct (merge_all_exact c s' ord' HI' Hr' Hall') as (s'' & t' & Hm' & _ & Hsz & _).
+  exists s'', t'. split; [exact Hm'|]. rewrite Hsz. exact Hlb.
+Qed.
+Print Assumptions C13_idempotent.
+
+Example C13_example :
+  let c := mkCfg 60 false 0 1 0 1000000000 in
+  let s := fst (fst (run c init [OSet [65] [1; 1; 1]; OSet [65] [2]; OSet [66] [3; 3]; ODel [66]; OSet [67] []])) in
+  dir_size (s_dir s) = 128 /\
+  match merge c s [[67]; [65]] with
+  | ROk (s', _, _) => dir_size (s_dir s') = 53 /\ live_bytes (slog s) (s_idx s) = 53
+  | _ => False
+  end.
+Proof. vm_compute. repeat split. Qed.
